@@ -22,7 +22,7 @@ Explained(e) ==
           /\ PrintT(<<"MSG", "KNOWN", d, e.case>>)
 
 Next == /\ l <= Len(Rec)
-        /\ Explained(Rec[l])
+        /\ Explained(Rec[l]) = TRUE
         /\ l' = l + 1
 Spec == Init /\ [][Next]_l
 
